@@ -19,6 +19,8 @@ def main():
     cx = mod.Ctx(parser, param.get("L", param.get("W", 5)), param.get("slice", "full"), timeout=spec["timeout"])
     for k, v in param.items():
         setattr(cx, k, v)
+    if param.get("cube") and hasattr(mod, "CUBE"):
+        mod.CUBE = tuple(param["cube"])
     out = {"id": spec.get("id")}
     try:
         res = mod.QUERIES[spec["fn"]](cx, list(spec.get("excludes") or []))
